@@ -336,7 +336,7 @@ class Comp(Ref):
     def __init__(self, op, A, B):
         self.op, self.A, self.B = op, A, B
         self.dim = {"intersect": min(A.dim, B.dim), "union": max(A.dim, B.dim), "difference": A.dim}[op]
-        self.tol, self.zs = max(A.tol, B.tol), sorted(set(A.zs + B.zs))
+        self.tol, self.zs, self.slack = max(A.tol, B.tol), sorted(set(A.zs + B.zs)), max(A.slack, B.slack)
         self.kind = f"{op}({A.kind},{B.kind})"
         self.desc, self._measure, self.weights = {"op": op, "A": A.desc, "B": B.desc}, None, None
 
@@ -346,6 +346,8 @@ class Comp(Ref):
             return np.maximum(a, b)
         if self.op == "union":
             return np.minimum(a, b)
+        if self.B.dim == 0:  # points have no interior: a point of A coinciding with one of B is removed
+            return np.where(b <= self.B.tol, np.maximum(a, 1.0), a)
         return np.maximum(a, -b - self.B.slack)
 
     def points(self, M, salt=0, dense=False):
@@ -360,7 +362,7 @@ class Comp(Ref):
             return p[oth.sd(p) <= 0]
         if self.op == "difference":
             p = pts(A, M, salt)
-            return p[B.sd(p) > 0]
+            return p[B.sd(p) > (B.tol if B.dim == 0 else 0)]
         if A.dim != B.dim:
             return pts(A if A.dim > B.dim else B, M, salt)
         wa, wb = self.weights or (A.measure, B.measure)
